@@ -85,18 +85,37 @@ def g_chain1d(s, P):
     return P
 
 
+def _inplace_on(s, P, r):
+    """the caller works in place on a result it owns (legal); nothing else it holds may change"""
+    x = s.random()
+    if x < 0.35:
+        P.add('S.imul', r, s.choice([0.5, 3.0]))
+    elif x < 0.6:
+        P.add('S.mask_entry', r, s.randint(1, 40))
+    elif x < 0.8:
+        P.add('S.setitem', r, s.randint(1, 40), 123.0)
+    else:
+        P.add('S.mask_corners', r)
+
+
 def _spec_tail(s, P, fs, ns):
     """a few spectrum / likelihood ops on fs"""
     nd = len(ns)
     for _ in range(s.randint(1, 4)):
         r = s.random()
         if r < 0.2:
-            to = [s.randint(1, n) for n in ns]
+            to = [s.randint(1, n) for n in ns] if s.chance(0.7) else list(ns)       # sometimes to the same sizes
             fs2 = P.add('S.project', fs, to)
+            if s.chance(0.4):
+                _inplace_on(s, P, fs2)
         elif r < 0.35:
-            P.add('S.fold', fs)
+            f2 = P.add('S.fold', fs)
+            if s.chance(0.3):
+                _inplace_on(s, P, f2)
         elif r < 0.45 and nd > 1:
-            P.add('S.marginalize', fs, [s.randrange(nd)])
+            m2 = P.add('S.marginalize', fs, [s.randrange(nd)])
+            if s.chance(0.3):
+                _inplace_on(s, P, m2)
         elif r < 0.55:
             P.add(s.choice(['S.S', 'S.pi', 'S.Watterson_theta', 'S.Tajima_D', 'S.theta_L', 'S.Zengs_E']) if nd == 1 else 'S.S', fs)
         elif r < 0.62 and nd > 1:
@@ -292,11 +311,24 @@ def g_spectrum(s, P):
         elif r < 0.2:
             P.add('S.unfold', P.add('S.fold', fs))
         elif r < 0.3:
-            P.add('S.project', fs, [s.randint(1, n) for n in ns])
+            pr = P.add('S.project', fs, [s.randint(1, n) for n in ns] if s.chance(0.6) else list(ns))
+            if s.chance(0.5):
+                _inplace_on(s, P, pr)
         elif r < 0.4:
-            P.add(s.choice(['S.add', 'S.sub', 'S.mul', 'S.div']), fs, other)
+            ar = P.add(s.choice(['S.add', 'S.sub', 'S.mul', 'S.div']), fs, other)
+            if s.chance(0.4):
+                _inplace_on(s, P, ar)
         elif r < 0.45:
-            P.add('S.scale', fs, s.choice([0.5, 2.0]))
+            if s.chance(0.6):
+                sc = P.add('S.scale', fs, s.choice([0.5, 2.0]))
+            elif s.chance(0.5):
+                sc = P.add('S.log', fs)
+            else:
+                sc = None
+                P.add('S.neg', fs)       # -a shares a's mask (numpy.ma semantics): a careful caller does not write into it
+            if sc is not None and s.chance(0.6):
+                _inplace_on(s, P, sc)
+            P.add('S.sum', fs)
         elif r < 0.5:
             c = P.add('S.copy', fs)
             P.add(s.choice(['S.iadd']), c, other)
